@@ -60,10 +60,18 @@ def run_checked(ctx, cfg, segs, kind):
     lim = max(cfg.max_line, cfg.max_field)
     for s in segs:
         try:
-            p.feed_data(s, **kw)
+            H._watch(True)
+            try:
+                p.feed_data(s, **kw)
+            finally:
+                H._watch(False)
         except BaseException as e:  # noqa
             name = type(e).__name__
-            if name not in H.KNOWN_ERRS:
+            if name == "_Runaway":
+                raise
+            if name == "ParserHang":
+                H.note_hang(cfg, segs)
+            elif name not in H.KNOWN_ERRS:
                 ctx.violation(f"C10/escaped-exception/{name}", case, f"{name} left feed_data: {e!r}"[:300])
             return name
         r = retained(p)
@@ -181,7 +189,7 @@ def expected_verdict(pos, delta):
     return "reject" if delta > 0 else "accept"
 
 
-def check(ctx):
+def _check(ctx):
     rng = ctx.rng
     lines, pending = [], []
     n_probe_rounds = 60 if ctx.quick else 1200
@@ -254,7 +262,7 @@ def check(ctx):
         ctx.violation("C05/loop-exception-handler-called", {"n": len(excs), "first": repr(excs[0])[:300]}, f"{len(excs)} exceptions reached the event loop")
 
 
-def replay(ctx, case):
+def _replay(ctx, case):
     spec = case["cfg"].split(",")
     cfg = H.Cfg(int(spec[0]), int(spec[1]), int(spec[2]), spec[3] == "1", spec[4] == "1", spec[5] == "1", spec[6] == "1", unhx(spec[7]))
     data = unhx(case["stream"])
@@ -276,3 +284,17 @@ def replay(ctx, case):
             ctx.violation(f"C10/limit-not-enforced/{case['probe']}", case, "over-long line accepted")
         if case["delta"] <= 0 and rej:
             ctx.violation(f"C10/limit-too-strict/{case['probe']}", case, "line within the limit rejected")
+
+
+def check(ctx):
+    try:
+        _check(ctx)
+    finally:
+        H.hang_report(ctx)     # inputs on which the parser did not return
+
+
+def replay(ctx, case):
+    try:
+        _replay(ctx, case)
+    finally:
+        H.hang_report(ctx)
